@@ -373,6 +373,115 @@ theorem C17_wait_overflow_counterexample :
     InRange Mcp.Gen.retryLimits c ∧ validate Mcp.Gen.retryLimits c = c ∧
     backoff true c 10 = 0 ∧ backoff false c 10 = 300000000000 := by decide
 
+/-! ### every wait is capped; the whole sequence sleeps at most `MaxRetries × MaxBackoff` -/
+
+private theorem effWait_bounds (oz) (c : Cfg) (hmb : 0 ≤ c.maxBackoff) (a : Nat) :
+    0 ≤ effWait oz c a ∧ effWait oz c a ≤ c.maxBackoff := by
+  have hb : backoff oz c a ≤ c.maxBackoff := by
+    unfold backoff
+    split
+    · simp only; split
+      · exact hmb
+      · split <;> omega
+    · split
+      · split <;> omega
+      · split <;> omega
+    · split
+      · split <;> omega
+      · split <;> omega
+  unfold effWait
+  split <;> omega
+
+private theorem loop_waits_len (R oz c script cancelAt maxA) :
+    ∀ fuel attempt now waits, 1 ≤ attempt → attempt ≤ maxA → waits.length = attempt - 1 →
+      (loop R oz c script cancelAt maxA fuel attempt now waits).waits.length ≤ maxA - 1 := by
+  intro fuel
+  induction fuel with
+  | zero => intro attempt now waits h1 h2 hl; simp [loop]; omega
+  | succ n ih =>
+    intro attempt now waits h1 h2 hl
+    unfold loop
+    split
+    · simp; omega
+    · split
+      · simp; omega
+      · split
+        · simp; omega
+        · split
+          · simp; omega
+          · rename_i hne
+            have hne' : attempt ≠ maxA := by simpa using hne
+            split
+            · simp; omega
+            · exact ih _ _ _ (by omega) (by omega) (by simp; omega)
+
+private theorem sum_le_of_all_le (b : Int) : ∀ (l : List Int), (∀ x ∈ l, x ≤ b) → l.sum ≤ l.length * b
+  | [], _ => by simp
+  | x :: xs, h => by
+    have h1 := h x (by simp)
+    have h2 := sum_le_of_all_le b xs (fun y hy => h y (by simp [hy]))
+    simp only [List.sum_cons, List.length_cons]
+    have : ((xs.length + 1 : Nat) : Int) * b = xs.length * b + b := by
+      rw [Int.natCast_add, Int.add_mul]; simp
+    omega
+
+/-- Every wait actually slept lies between zero and `MaxBackoff` — whatever the factor (NaN and ±Inf included),
+    the script, the classification and the cancellation instant, on the repaired and on the unrepaired code. -/
+theorem C17_every_wait_capped (R oz) (c : Cfg) (script cancelAt) (hmb : 0 ≤ c.maxBackoff) :
+    ∀ w ∈ (execute R oz (some c) script cancelAt).waits, 0 ≤ w ∧ w ≤ c.maxBackoff := by
+  intro w hw
+  unfold execute at hw
+  by_cases h0 : (c.maxRetries == 0) = true
+  · simp [h0] at hw
+  · have h0' : (c.maxRetries == 0) = false := by simpa using h0
+    simp only [h0', Bool.false_eq_true, ite_false] at hw
+    obtain ⟨_, q⟩ := loop_waits R oz c script cancelAt (c.maxRetries + 1).toNat (c.maxRetries + 1).toNat 1 0 []
+      (by omega) (by simp)
+    obtain ⟨j, hj, rfl⟩ := List.getElem_of_mem hw
+    rw [q j (by omega) hj]
+    exact effWait_bounds oz c hmb (j + 1)
+
+/-- At most `MaxRetries` waits are slept (one between two consecutive attempts, none after the last). -/
+theorem C17_waits_count (R oz) (c : Cfg) (script cancelAt) (h : 0 ≤ c.maxRetries) :
+    ((execute R oz (some c) script cancelAt).waits.length : Int) ≤ c.maxRetries := by
+  unfold execute
+  simp only
+  split
+  · simp; omega
+  · rename_i h0
+    have hz : c.maxRetries ≠ 0 := by simpa using h0
+    have := loop_waits_len R oz c script cancelAt (c.maxRetries + 1).toNat (c.maxRetries + 1).toNat 1 0 []
+      (by omega) (by omega) (by simp)
+    omega
+
+/-- The whole sequence sleeps at most `MaxRetries × MaxBackoff` in total: the retry loop cannot hold a caller
+    longer than that between attempts, for every script, classification, factor and cancellation instant. -/
+theorem C17_total_wait_bounded (R oz) (c : Cfg) (script cancelAt) (h : 0 ≤ c.maxRetries) (hmb : 0 ≤ c.maxBackoff) :
+    (execute R oz (some c) script cancelAt).waits.sum ≤ c.maxRetries * c.maxBackoff := by
+  have h1 := sum_le_of_all_le c.maxBackoff _
+    (fun x hx => (C17_every_wait_capped R oz c script cancelAt hmb x hx).2)
+  have h2 := C17_waits_count R oz c script cancelAt h
+  have h3 := Int.mul_le_mul_of_nonneg_right h2 hmb
+  omega
+
+/-- …so a validated configuration never sleeps more than the documented 10 × 5 minutes, and never a negative time. -/
+theorem C17_total_wait_documented (R oz) (c : Cfg) (script cancelAt)
+    (hd : ∀ n d, c.factor = .q n d → 0 < d) :
+    (execute R oz (some (validate Mcp.Gen.retryLimits c)) script cancelAt).waits.sum ≤ 10 * (5 * 60 * 1000000000) := by
+  have hr := C17_clamp_range Mcp.Gen.retryLimits C17_limits_ok.1 C17_limits_ok.2 c hd
+  obtain ⟨a1, a2, a3, a4, _, a6, a7⟩ := hr
+  obtain ⟨d1, d2, d3, d4, _, _, d7⟩ := C17_limits_documented
+  rw [d1] at a1; rw [d2] at a2; rw [d3] at a3; rw [d7] at a7
+  have hmb : 0 ≤ (validate Mcp.Gen.retryLimits c).maxBackoff := by omega
+  have h1 := C17_total_wait_bounded R oz _ script cancelAt a1 hmb
+  have h2 := Int.mul_le_mul_of_nonneg_right a2 hmb
+  have h3 : (10 : Int) * (validate Mcp.Gen.retryLimits c).maxBackoff ≤ 10 * (5 * 60 * 1000000000) := by omega
+  omega
+
+/-- non-vacuity: a run that really sleeps three capped waits (100 ms, 200 ms, then the 300 ms cap). -/
+example : (execute (fun _ => true) false (some ⟨3, 100000000, .q 2 1, 300000000⟩)
+    (fun _ => some []) none).waits = [100000000, 200000000, 300000000] := by decide
+
 /-- Cancelling the caller's context ends the sequence with the context's error, and no attempt starts after the
     cancellation instant: once `t ≤ now` at the top of an iteration the loop returns `ctxErr` at once. -/
 theorem C17_cancel_before_attempt (R oz c script maxA fuel attempt) (now t : Int) (waits) (h : t ≤ now) :
